@@ -635,7 +635,9 @@ def split(outline):
 
 
 # ------------------------------------------------------------------ the property oracle (independent of the model)
-NAME_RE = re.compile(r"([A-Za-z0-9._-]+)(?:==(.*))?")
+# a plain distribution name (PEP 508): letters, digits, - _ . beginning and ending with a letter or digit (so that a pip
+# option such as `--pre` is not a package name)
+NAME_RE = re.compile(r"([A-Za-z0-9](?:[A-Za-z0-9._-]*[A-Za-z0-9])?)(?:==(.*))?")
 
 
 def _meaning(line):
@@ -870,7 +872,7 @@ def verdict(c):
 # with the old signature could excuse it.
 FIXED_SIGNATURES = {"invalid-pin-selected-malformed": "C20-F1", "invalid-pin-selected-empty": "C20-F2",
                     "specifier-kept-as-name": "C20-F3", "sentinel-pin-as-unpinned": "C20-F4",
-                    "bom-first-line-kept": "C20-F8"}
+                    "bom-first-line-kept": "C20-F8", "raised-InvalidVersion-installed-not-pep440": "C20-F9"}
 
 
 def classify(c, reason):
